@@ -100,8 +100,10 @@ def handle (st : Option SCase) (args : List String) : Option SCase × String :=
     match st with
     | none => (st, "no-case")
     | some c =>
-      (st, if omittedInside c.t c.vs ((splitList ids ',').map String.toNat!)
-              ((splitList extra ',').map String.toNat!) pep.toList then "inside" else "outside")
+      let i := (splitList ids ',').map String.toNat!
+      let e := (splitList extra ',').map String.toNat!
+      (st, if omittedInside c.t c.vs i e pep.toList then "inside"
+           else if omittedAdjacent c.t c.vs i e pep.toList then "adjacent" else "outside")
   | ["novelorf", seq, rule, exc, misc, minMw, minLen, maxLen, w2f, canon] =>
     match mkCfg rule exc misc minMw minLen maxLen "0" w2f canon with
     | none => (st, "bad-rule")
